@@ -1,0 +1,80 @@
+//go:build verif
+
+package oxia
+
+import (
+	"context"
+	"log/slog"
+	"time"
+
+	"github.com/oxia-db/oxia/common/concurrent"
+	"github.com/oxia-db/oxia/common/rpc"
+	time2 "github.com/oxia-db/oxia/common/time"
+)
+
+// Verification hooks for the client side of the notification stream (oxia/notifications.go).
+// Add-only, compiled only with -tags verif. No logic of its own beyond wiring.
+
+// verifNotifShardManager is a fixed shard list with a harness-chosen leader name per shard.
+type verifNotifShardManager struct {
+	shards []int64
+	leader func(shard int64) string
+}
+
+func (*verifNotifShardManager) Close() error            { return nil }
+func (*verifNotifShardManager) Get(string) int64        { return 0 }
+func (m *verifNotifShardManager) GetAll() []int64       { return append([]int64(nil), m.shards...) }
+func (m *verifNotifShardManager) Leader(s int64) string { return m.leader(s) }
+
+// VerifNewNotifications is newNotifications (what Client.GetNotifications calls): the real managers, their
+// goroutines and their retry loop, against the given client pool.
+func VerifNewNotifications(ctx context.Context, requestTimeout time.Duration, pool rpc.ClientPool, shards []int64,
+	leader func(shard int64) string) (Notifications, error) {
+	return newNotifications(ctx, clientOptions{requestTimeout: requestTimeout}, pool,
+		&verifNotifShardManager{shards: shards, leader: leader})
+}
+
+// VerifShardNotifications drives the real per-shard manager one connection attempt at a time:
+// Attempt() is one call of shardNotificationsManager.getNotifications, i.e. what backoff.RetryNotify
+// calls again and again in getNotificationsWithRetries. The harness decides when the stream breaks
+// and when the client reconnects; there is no goroutine and no back-off sleep.
+type VerifShardNotifications struct {
+	nm  *notifications
+	snm *shardNotificationsManager
+}
+
+func NewVerifShardNotifications(ctx context.Context, shard int64, pool rpc.ClientPool, leader func(shard int64) string,
+	chanSize int) *VerifShardNotifications {
+	nm := &notifications{
+		multiplexCh:   make(chan *Notification, chanSize),
+		closeCh:       make(chan any, 1),
+		shardManager:  &verifNotifShardManager{shards: []int64{shard}, leader: leader},
+		clientPool:    pool,
+		initWaitGroup: concurrent.NewWaitGroup(1),
+	}
+	nm.ctx, nm.cancel = context.WithCancel(ctx)
+	nm.ctxMultiplexChanClosed, nm.cancelMultiplexChanClosed = context.WithCancel(context.Background())
+	// the fields newShardNotificationsManager sets, minus the goroutine it starts
+	snm := &shardNotificationsManager{
+		shard:              shard,
+		ctx:                nm.ctx,
+		nm:                 nm,
+		lastOffsetReceived: -1,
+		backoff:            time2.NewBackOffWithInitialInterval(nm.ctx, 1*time.Second),
+		log:                slog.With(slog.String("component", "oxia-notifications-manager"), slog.Int64("shard", shard)),
+	}
+	return &VerifShardNotifications{nm: nm, snm: snm}
+}
+
+// Attempt is one getNotifications call: open the stream, then receive until the stream ends.
+func (v *VerifShardNotifications) Attempt() error { return v.snm.getNotifications() }
+
+// LastOffsetReceived / Initialized read the resume state (only call them while no Attempt is running).
+func (v *VerifShardNotifications) LastOffsetReceived() int64 { return v.snm.lastOffsetReceived }
+func (v *VerifShardNotifications) Initialized() bool         { return v.snm.initialized }
+
+// Ch is the user-facing channel the manager multiplexes into.
+func (v *VerifShardNotifications) Ch() <-chan *Notification { return v.nm.multiplexCh }
+
+// Cancel cancels the managers' context (what Notifications.Close does first).
+func (v *VerifShardNotifications) Cancel() { v.nm.cancel() }
